@@ -722,20 +722,24 @@ func (c *Client) receipts(ctx context.Context, url string, bm blockmap, start, l
 		}
 	}
 	for i := range resps {
+		if resps[i].Result == nil {
+			return fmt.Errorf("eth_getBlockReceipts missing result for %d", start+uint64(i))
+		}
 		if len(resps[i].Result) == 0 {
-			slog.ErrorContext(ctx, "no rpc error but empty result")
 			continue
 		}
 		blockNum := uint64(resps[i].Result[0].BlockNum)
-		if blockNum < start || blockNum > start+limit {
-			const tag = "eth_getBlockReceipts out of range block. num=%d start=%d lim=%d"
-			return fmt.Errorf(tag, blockNum, start, limit)
+		if blockNum != start+uint64(i) {
+			const tag = "eth_getBlockReceipts unexpected block. num=%d requested=%d"
+			return fmt.Errorf(tag, blockNum, start+uint64(i))
 		}
 		b, ok := bm[blockNum]
 		if !ok {
 			return fmt.Errorf("block not found")
 		}
-		b.Header.Hash.Write(resps[i].Result[0].BlockHash)
+		if err := setHash(b, resps[i].Result[0].BlockHash); err != nil {
+			return fmt.Errorf("eth_getBlockReceipts: %w", err)
+		}
 		for j := range resps[i].Result {
 			tx := b.Tx(uint64(resps[i].Result[j].TxIdx))
 			tx.PrecompHash.Write(resps[i].Result[j].TxHash)
@@ -820,6 +824,14 @@ func (c *Client) logs(ctx context.Context, url string, filter *glf.Filter, bm bl
 		return fmt.Errorf("rpc=eth_getLogs %w", lresp.Error)
 	case hresp.Header == nil:
 		return fmt.Errorf("eth backend missing logs for block: %d", toBlock)
+	case lresp.Result == nil:
+		return fmt.Errorf("rpc=eth_getLogs missing result")
+	}
+	if b, ok := bm[toBlock]; ok {
+		// the header that came with the logs must be the block we hold
+		if err := setHash(b, hresp.Hash); err != nil {
+			return fmt.Errorf("eth_getLogs/eth_getBlockByNumber: %w", err)
+		}
 	}
 	var logsByTx = map[key][]logResult{}
 	for i := range lresp.Result {
@@ -845,7 +857,10 @@ func (c *Client) logs(ctx context.Context, url string, filter *glf.Filter, bm bl
 			return fmt.Errorf("block not found")
 		}
 		b.Lock()
-		b.Header.Hash.Write(logs[0].BlockHash)
+		if err := setHash(b, logs[0].BlockHash); err != nil {
+			b.Unlock()
+			return fmt.Errorf("eth_getLogs: %w", err)
+		}
 		tx := b.Tx(k.b)
 		tx.PrecompHash.Write(logs[0].TxHash)
 		for i := range logs {
@@ -857,6 +872,18 @@ func (c *Client) logs(ctx context.Context, url string, filter *glf.Filter, bm bl
 		"nlogs", len(lresp.Result),
 		"elapsed", time.Since(t0),
 	)
+	return nil
+}
+
+// Records the block hash that accompanies logs, receipts or traces.
+// When the block already has a hash (from its header) the two must agree:
+// a difference means the source changed between the requests.
+func setHash(b *eth.Block, h []byte) error {
+	if len(b.Header.Hash) > 0 && len(h) > 0 && !bytes.Equal(b.Header.Hash, h) {
+		const tag = "block %d hash mismatch: have %.4x got %.4x"
+		return fmt.Errorf(tag, b.Num(), b.Header.Hash, h)
+	}
+	b.Header.Hash.Write(h)
 	return nil
 }
 
@@ -891,14 +918,23 @@ func (c *Client) traces(ctx context.Context, url string, bm blockmap, start, lim
 			const tag = "trace_block"
 			return fmt.Errorf("rpc=%s %w", tag, res.Error)
 		}
+		if res.Result == nil {
+			return fmt.Errorf("trace_block missing result for %d", start+i)
+		}
 		if len(res.Result) == 0 {
-			return fmt.Errorf("no rpc error but empty result")
+			continue
+		}
+		if res.Result[0].BlockNum != start+i {
+			const tag = "trace_block unexpected block. num=%d requested=%d"
+			return fmt.Errorf(tag, res.Result[0].BlockNum, start+i)
 		}
 		block, ok := bm[res.Result[0].BlockNum]
 		if !ok {
 			return fmt.Errorf("missing block in block map")
 		}
-		block.Header.Hash.Write(res.Result[0].BlockHash)
+		if err := setHash(block, res.Result[0].BlockHash); err != nil {
+			return fmt.Errorf("trace_block: %w", err)
+		}
 
 		var tracesByTx = map[key][]traceBlockResult{}
 		for i := range res.Result {
